@@ -1388,26 +1388,37 @@ namespace bloch::runtime {
             if (obj.use_count() - 1 > traced[obj.get()])
                 markObject(obj);
         }
-        // An object whose destruction can be observed (a destructor body somewhere in its class
-        // chain, qubits to reset, a tracked outcome to record) is not reclaimed here: it is
-        // destroyed in the ordinary way when its last owner goes. Whatever it still refers to
-        // therefore has to stay intact, and while the program is running so does everything that
-        // still refers to it, whether the object is reachable at the moment or not: clearing such
-        // a referrer would move the moment the object dies to wherever the collector happened to
-        // run. Those referrers are reclaimed by the collection at the end of the run instead.
-        auto destructionIsObservable = [](const RuntimeClass* cls) {
-            for (const RuntimeClass* c = cls; c; c = c->base) {
-                if (c->hasTrackedFields || (c->destructorDecl && c->destructorDecl->body))
-                    return true;
-            }
-            return false;
-        };
+        // Unreachable objects that own qubits or tracked state are not reclaimed here: they are
+        // destroyed in the ordinary way (destructor, reset, tracked outcome) when their last owner
+        // goes, so whatever they still refer to has to stay intact. That is all the collection at
+        // the end of the run has to respect.
+        //
+        // While the program is running, a collection must in addition not change when anything
+        // observable happens: clearing an object that refers to one whose destruction can be
+        // observed (a destructor body somewhere in its class chain, qubits to reset, a tracked
+        // outcome to record) would move the moment that object dies to wherever the collector
+        // happened to run - whether the object is reachable at the moment or not, since a garbage
+        // cycle may share it with a live variable. Such objects and everything that refers to
+        // them are therefore left to the end-of-run collection, which then behaves as if no
+        // collection had happened before it.
         std::unordered_set<const Object*> kept;
-        for (const auto& obj : objects) {
-            if (obj->cls && destructionIsObservable(obj->cls))
-                kept.insert(obj.get());
-        }
-        if (!m_stopGc.load()) {
+        if (m_stopGc.load()) {
+            for (const auto& obj : objects) {
+                if (!obj->marked && obj->cls && obj->cls->hasTrackedFields)
+                    kept.insert(obj.get());
+            }
+        } else {
+            auto destructionIsObservable = [](const RuntimeClass* cls) {
+                for (const RuntimeClass* c = cls; c; c = c->base) {
+                    if (c->hasTrackedFields || (c->destructorDecl && c->destructorDecl->body))
+                        return true;
+                }
+                return false;
+            };
+            for (const auto& obj : objects) {
+                if (obj->cls && destructionIsObservable(obj->cls))
+                    kept.insert(obj.get());
+            }
             auto refersToKept = [&kept](const Object& o) {
                 for (const auto& f : o.fields) {
                     if (f.objectValue && kept.count(f.objectValue.get()))
